@@ -243,6 +243,8 @@ def run_case(case):
                         continue
                     if exc is not None:
                         raise Violation("proc-no-exception", repr(exc))
+                    if not isinstance(got, float):
+                        raise Violation("proc-percent", f"cpu_percent({interval!r}) returned {got!r}, not a float")
                     nowt = (k.now, proc.utime + proc.stime)
                     if blocking:
                         prev = t_start
